@@ -639,3 +639,40 @@ package decoder
 //@   loop 2: invariant keyIdx >= 1 ==> curBit < pow2(nfields(d))
 //@   loop 2: invariant keyIdx == 0 ==> buf[cursor] != '"'
 //@   loop 3: unroll 4
+
+// ---------------------------------------------------------------- stream refill core (C09, C06)
+// Window invariant of a Stream, as far as memory safety and the consumed prefix need it: the cursor
+// is inside the buffer, the last byte of the buffer is the NUL sentinel (every scanner stops there),
+// and the recorded buffer size is not smaller than the buffer (otherwise doubling would truncate the
+// window). Not part of it: "cursor <= length" and "everything from length on is NUL" - readBuf
+// shortens the window at the first NUL byte of the data, so neither holds for inputs that contain
+// NUL bytes (outside the claim; see the bounded stand-in).
+//@ spec wfStream(s) := s != nil && 0 <= s.cursor && s.cursor < len(s.buf) && 0 <= s.length && s.length < len(s.buf) && len(s.buf) <= cap(s.buf) && len(s.buf) <= s.bufSize && s.bufSize <= 4611686018427387903 && s.buf[len(s.buf) - 1] == 0
+
+//@ func io.Reader.Read(r, p) (n, err)
+//@   props C09 C06
+//@   trusted interface contract of io.Reader: 0 <= n <= len(p) and only p[:n] is written (a reader that scribbles on p[n:] is outside the claim)
+//@   ensures 0 <= n && n <= len(p)
+//@   assigns M[ptrOf(p) .. ptrOf(p) + n)
+
+//@ func (*Stream).char(s) (c)
+//@   inline
+
+//@ func (*Stream).readBuf(s) (buf)
+//@   props C09 C06
+//@   requires wfStream(s)
+//@   ensures s.cursor == old(s.cursor) && s.cursor <= s.length && s.length < len(s.buf)
+//@   ensures len(s.buf) <= s.bufSize && s.bufSize <= 4611686018427387903 && len(s.buf) >= old(len(s.buf)) && len(s.buf) <= cap(s.buf)
+//@   ensures ptrOf(buf) == ptrOf(s.buf) + s.length && len(buf) == len(s.buf) - s.length && len(buf) >= 1 && len(buf) <= cap(buf)
+//@   ensures forall k :: 0 <= k && k < s.length ==> s.buf[k] == old(s.buf[k])
+//@   ensures s.buf[len(s.buf) - 1] == 0
+//@   assigns Stream.buf, Stream.bufSize, Stream.length, fresh
+//@   loop 1: invariant 0 <= i && remainNotNulCharNum == i && (i == 0 || i <= remainLen) && remainLen == s.length - s.cursor
+
+//@ func (*Stream).read(s) (ok)
+//@   props C09 C06
+//@   requires wfStream(s)
+//@   ensures wfStream(s) && s.cursor == old(s.cursor) && (ok ==> s.cursor <= s.length)
+// the bytes already consumed are never changed by a refill
+//@   ensures forall k :: 0 <= k && k < s.cursor ==> s.buf[k] == old(s.buf[k])
+//@   assigns all
